@@ -16,14 +16,20 @@ THEOREMS = ['Vakt.C07.filterM_superset', 'Vakt.C07.superset_ok', 'Vakt.C07.other
             'Vakt.C07.backend_decision_eq',
             'Vakt.C07.regex_candidates_complete', 'Vakt.C07.regex_dropped_no_match', 'Vakt.C07.mongo42_regex_decision_eq',
             'Vakt.C07.invalid_literal_breaks',
+            # the SQL queries: LIKE modelled exactly, the regex-operator query over the stored child rows
+            'Vakt.C07.like_infix', 'Vakt.C07.like_escape_incomplete', 'Vakt.C07.sql_fuzzy_complete',
+            'Vakt.C07.sql_fuzzy_dropped_no_match', 'Vakt.C07.sql_fuzzy_decision_eq', 'Vakt.C07.sql_regex_complete',
+            'Vakt.C07.sql_regex_dropped_no_match', 'Vakt.C07.sql_regex_decision_eq',
             'Vakt.C07.probes_ok']
-EXTRA_IMPORTS = ['Props.C06', 'Props.C07Regex']
+EXTRA_IMPORTS = ['Props.C06', 'Props.C07Regex', 'Props.C07Sql']
 FLOOR = {'quick': 50, 'thorough': 1500}
 ASSUMPTIONS = ['MySQL / PostgreSQL / Oracle regex and LIKE-escape semantics and a real MongoDB (PCRE) are not available: the '
                'regex-capable SQL dialect is SQLite with a registered REGEXP function (Python re.search) and Mongo is the '
                'in-process fake; results for those branches hold for the emulation only',
-               'SQL LIKE is modelled by its lower bound (case-sensitive substring); its extra candidates (ASCII case '
-               'folding, % and _ in the value) never matter by superset_ok']
+               "SQL LIKE is modelled exactly for SQLite (% and _ wildcards, ASCII case folding, no escape character) and "
+               "compared with SQLite's own LIKE on every run; on a dialect whose LIKE has the backslash as default escape "
+               "character (MySQL, PostgreSQL) the fuzzy query misses an element containing a value with a backslash "
+               "(like_escape_incomplete: a theorem of the model; no such server here to exhibit it on the code)"]
 BACKENDS = ['sqlite', 'sqlite-regex', 'redis-json', 'redis-pickle', 'mongo', 'mongo40', 'mongo419', 'enfold:sqlite', 'enfold:mongo',
             'observable:sqlite', 'observable:memory', 'enfold-late:sqlite', 'enfold-late-pop:memory']
 
@@ -221,6 +227,19 @@ def run(ctx):
                     mmeta.append((desc, None if cands is None else sorted(proto.enc_value(u) for u in cands), cerr))
                 except proto.ProtoError:
                     pass
+            # the SQL queries against their model (SqlQuery: LIKE modelled exactly; the regex-operator query over the
+            # child rows): the same candidates
+            if ((kind == 'sqlite' and k == 'KF') or (kind == 'sqlite-regex' and k == 'KR')) and cands is not None and \
+                    all(isinstance(getattr(inq, f), str) for f in ('action', 'subject', 'resource')):
+                try:
+                    mlines.append('SQLFIND %s %s %s %s %d %s' % (
+                        'fuzzy' if k == 'KF' else 'regex',
+                        proto.enc_value(inq.action), proto.enc_value(inq.subject), proto.enc_value(inq.resource), len(objs),
+                        ' '.join(polcase.pol_line(p, o) for p, o in zip(case['policies'], objs))))
+                    mmeta.append((dict(desc, query='sql-' + ('fuzzy' if k == 'KF' else 'regex')),
+                                  sorted(proto.enc_value(u) for u in cands), None))
+                except proto.ProtoError:
+                    pass
             # model candidates for the policies as they are read back (SQL / Mongo: default tags)
             if cands is not None and k is not None:
                 mb = model_backend(kind, k)
@@ -259,7 +278,8 @@ def run(ctx):
     for line, (desc, cands, cerr), m in zip(mlines, mmeta, mres):
         if m == 'bad-op':
             raise Broken('driver rejected: %s' % line[:300])
-        out.count('mongo42-regex-query:' + m.split(' ')[0])
+        sqlq = desc.get('query')
+        out.count((sqlq or 'mongo42-regex') + '-query:' + m.split(' ')[0])
         if m == 'unmodelled':
             out.unmodelled += 1
             continue
@@ -270,12 +290,20 @@ def run(ctx):
             toks = m.split(' ')[2:]
             ok = cands is not None and sorted(toks) == cands
         if not ok:
-            f = Failure('disagreement', desc, {'candidates': cands, 'error': cerr}, m,
-                        'the MongoDB >= 4.2 regex aggregation (fake server) differs from the model of the query over the '
-                        'stored compiled texts', 'Vakt.C07.mongo42_regex_decision_eq (MongoRegex.find)', line=line)
-            f.signature = 'model:mongo42-regex'
+            if sqlq:
+                f = Failure('disagreement', desc, {'candidates': cands}, m,
+                            'the %s query of SQLStorage (SQLite) returns other candidates than the model of the query over '
+                            'the stored rows' % sqlq, 'Vakt.C07.sql_fuzzy_decision_eq / sql_regex_decision_eq (SqlQuery.find)',
+                            line=line)
+                f.signature = 'model:' + sqlq
+            else:
+                f = Failure('disagreement', desc, {'candidates': cands, 'error': cerr}, m,
+                            'the MongoDB >= 4.2 regex aggregation (fake server) differs from the model of the query over the '
+                            'stored compiled texts', 'Vakt.C07.mongo42_regex_decision_eq (MongoRegex.find)', line=line)
+                f.signature = 'model:mongo42-regex'
             f.weak = True      # which non-matching policies the aggregation offers is not prescribed
             out.failures.append(f)
+    _like_stream(ctx, out, rng)
     out.rule = ('the same generated policy set (string- / rule-based / mixed stores, tag-enclosed and case-varied and '
                 'wildcard-bearing elements aimed at the inquiry) added to Memory and to %d other backends/wrappers; inquiry '
                 'values with %%, _, backslashes, regex metacharacters, tags, mixed case, quotes, non-ASCII; the four '
@@ -283,6 +311,53 @@ def run(ctx):
                 'Guard.is_allowed equal to the in-memory answer, candidate membership compared with the model predicate; '
                 'non-trivial = >=1 matching policy' % len(BACKENDS))
     return out
+
+
+def _like_stream(ctx, out, rng):
+    """SQLite's LIKE against the model of LIKE (SqlQuery.like with SQLite's ASCII-case-insensitive comparison and no
+    escape character): patterns '%value%' as the fuzzy query builds them, values with %, _ and backslashes, elements
+    that contain the value, a case variant of it, a one-point mutation of it, or something else"""
+    import sqlite3
+    con = sqlite3.connect(':memory:')
+    n = ctx.budget(400, 8000)
+    lines, meta = [], []
+    alphabet = ['a', 'b', 'A', 'B', '%', '_', '\\', 'x', 'é', 'É', 'ß', '中', ' ', "'", '<', '>', '.']
+    for _ in range(n):
+        v = ''.join(pick(rng, alphabet) for _ in range(rng.randint(0, 4))) if rng.random() < 0.7 else pick(rng, TRICKY)
+        r = rng.random()
+        if r < 0.35:
+            e = ''.join(pick(rng, alphabet) for _ in range(rng.randint(0, 2))) + v + \
+                ''.join(pick(rng, alphabet) for _ in range(rng.randint(0, 2)))
+        elif r < 0.5:
+            e = 'p' + v.swapcase() + 's'
+        elif r < 0.75:
+            e = mutate_str(rng, 'q' + v + 'r')
+        else:
+            e = ''.join(pick(rng, alphabet) for _ in range(rng.randint(0, 6)))
+        pat = '%{}%'.format(v)
+        got = con.execute('SELECT ? LIKE ?', (e, pat)).fetchone()[0]
+        lines.append('LIKE %s %s' % (proto.enc_str(pat), proto.enc_str(e)))
+        meta.append((v, e, bool(got)))
+    res = ctx.driver.run(lines) if ctx.driver else []
+    for line, (v, e, got), m in zip(lines, meta, res):
+        if m == 'bad-op':
+            raise Broken('driver rejected: %s' % line[:200])
+        out.evaluations += 1
+        out.traces += 1
+        out.count('like:' + ('match' if got else 'no-match') + (':substring' if v in e else ''))
+        if (m == 'ok T') != got:
+            f = Failure('disagreement', {'value': v, 'element': e}, got, m,
+                        "SQLite's LIKE and the model of LIKE disagree on element LIKE '%value%'",
+                        'Vakt.C07.like_infix (SqlQuery.like)', line=line)
+            f.signature = 'model:like'
+            f.weak = True          # the LIKE of the database engine is not vakt's code: the model of it is what broke
+            out.failures.append(f)
+        if v in e and not got:
+            f = Failure('oracle', {'value': v, 'element': e}, got, None,
+                        "SQLite's LIKE '%value%' does not find an element that contains the value", 'Vakt.C07.like_infix')
+            f.signature = 'like-incomplete'
+            out.failures.append(f)
+    con.close()
 
 
 def _has_invalid_literal(objs):
